@@ -16,12 +16,16 @@ Tie between model and code: (1) the `d` of `n_k_d` equals the model's `nkd` d fo
 weight < d, must confirm by certificate that the code's own lightest logical has weight exactly d, and (small sizes)
 must compute distance exactly d.  The logical rows handed to the search are `code.logicals` PLUS a basis of
 N(S)/span(S) computed from the stabilizers alone (each row checked by Lean to commute with S), so that an operator
-that is non-trivial in the property's own sense cannot hide behind wrong or missing supplied logicals."""
+that is non-trivial in the property's own sense cannot hide behind wrong or missing supplied logicals.
+Interpreter mode is an input too (qv/optmode.py): every family / size up to the bound is also constructed in a child
+`python -O` (thorough: and `-OO`) bound to the same repo; n_k_d and the matrices must equal the in-process ones, and (b),
+(c) plus the independent exact distance are evaluated on the -O matrices of the small sizes."""
 import json
 import math
 import time
 
 from qv import c08_search as cs
+from qv import optmode
 from qv.core import bits, mat
 
 LEVEL = 'proof'
@@ -30,7 +34,9 @@ RULE = ('per code size: (a) n_k_d.d == model d for all sizes up to the bound (al
         '(b) Lean-verified CSS-split (five-qubit: all-Pauli) exhaustive search on the real stabilizers/logicals '
         '(+ stabilizer-derived basis of N(S)/S) finds no operator of weight < d; (c) the lightest supplied logical '
         'passes the Lean certificate with weight exactly d; (d) small sizes: verified least logical weight == d; '
-        '(e) independent numpy search (true notion: in N(S) and not in span S) on the same and larger sizes. '
+        '(e) independent numpy search (true notion: in N(S) and not in span S) on the same and larger sizes; '
+        '(f) the same codes constructed under `python -O` (child interpreter): n_k_d / matrices identical to normal mode, '
+        '(b),(c) and the exact distance on the -O matrices of the small sizes. '
         'non-trivial = every case that involves the real matrices (b-d); (a) counts as trivial')
 
 FAMS = ('planar', 'toric', 'rotatedplanar', 'rotatedtoric', 'color666', 'five', 'steane')
@@ -225,7 +231,8 @@ def run(ctx):
     ctx.extra['codes_formula'] = len(sizes)
     ctx.extra['codes_lean_search'] = n_lean
     ctx.extra['codes_py_search'] = n_py
-    ctx.explored = {
+    optmode.probe(ctx, 'C08')  # (f): fills ctx.explored['optimised_mode']
+    ctx.explored.update({
         'lower_bound_lean_search': {
             'evaluations': int(spent_lean), 'exhaustive': True, 'codes': explored['lean_search'],
             'rule': 'operators of weight < d enumerated by the verified search (X-only + Z-only subsets; five-qubit: '
@@ -233,7 +240,7 @@ def run(ctx):
         'lower_bound_independent_search': {
             'evaluations': int(spent_py), 'exhaustive': True, 'codes': explored['py_search'],
             'rule': 'numpy level-by-level search, logicals = basis of N(S)/span S computed from the stabilizers only'},
-    }
+    })
     ctx.assumptions = ['for CSS codes the minimum is attained on an X-only or Z-only operator: theorem css_split '
                        '(hypothesis isCSS checked by the driver on the real matrices)',
                        'sizes beyond the search budget: only the formula tie and the all-sizes theorems '
@@ -251,6 +258,8 @@ def search(m):
     fam, args = meta.get('fam'), tuple(meta.get('args') or ())
     if fam is None:
         return None
+    if meta.get('optmode'):
+        return optmode.counterexample('C08', meta)
     kind = meta.get('kind')
     if kind in ('css', 'innorm'):
         return None
@@ -280,6 +289,9 @@ def replay(ctx, path):
         ce = ce.get('input', ce)
         fam, args = ce.get('family'), tuple(ce.get('args') or ())
         if fam is None:
+            continue
+        if ce.get('optmode'):
+            rc = 1 if optmode.recheck('C08', ce) else rc
             continue
         code = make_code(fam, args)
         n, k, d = (int(x) for x in code.n_k_d)
